@@ -129,13 +129,13 @@ MANIFEST_TEXT = {
 PLANS["C04"] = {
     "level": "exploration",
     "rule": "stage 1: every sequence of key units up to the depth bound (quick 6, thorough 7) over 20 unit classes pushed byte by byte into the real InputGenerator in lockstep with a reference decoder written from the statement "
-            "(sequences pairing a lone ESC with `[` excluded: that pair is a CSI introducer by definition); stage 2: random unit streams (long terminator runs, long CSI parameter strings, all ignored controls) through a real Cli, effects per unit compared with an ideal editor driven by the reference decoder. "
+            "(sequences pairing a lone ESC with `[` excluded: that pair is a CSI introducer by definition); stage 3: every scalar value >= U+0020 (DEL aside) after nine decoder contexts (fresh, after a character, CR, LF, an arrow, an ignored CSI, a lone ESC, a 2-byte character, a truncated 3-byte sequence); stage 2: random unit streams (long terminator runs, long CSI parameter strings, all ignored controls) through a real Cli, effects per unit compared with an ideal editor driven by the reference decoder. "
             "evaluation = one byte comparison (stage 1) or one unit effect check (stage 2); distinct = hash of (reference decoder state, unit class, byte index) and CR/LF run patterns up to length 6",
     "assumptions": ["DEL, bytes outside 0x20-0x7E inside a CSI sequence and control bytes inside a multi-byte character are left open by the statement and are not generated"],
     "exhaustive": {"quick": True, "thorough": True},
     "exhaustive_note": {"quick": "stage 1 only: all unit sequences of length <= 6 over the 20 unit classes", "thorough": "stage 1 only: all unit sequences of length <= 7 over the 20 unit classes"},
-    "min_counts": {"quick": {"c04.sequences": 50000000, "c04.cli.terminator_units": 50000}, "thorough": {"c04.sequences": 1000000000, "c04.cli.terminator_units": 1000000}},
-    "stages": [{"variant": "fast", "workload": "C04-direct"}, {"variant": "dbg", "workload": "C04-cli"}],
+    "min_counts": {"quick": {"c04.sequences": 50000000, "c04.cli.terminator_units": 50000, "c04.scalars": 1112030}, "thorough": {"c04.sequences": 1000000000, "c04.cli.terminator_units": 1000000, "c04.scalars": 1112030}},
+    "stages": [{"variant": "fast", "workload": "C04-direct"}, {"variant": "dbg", "workload": "C04-cli"}, {"variant": "dbg", "workload": "C04-scalars"}],
 }
 
 PLANS["C02"] = {
